@@ -212,7 +212,10 @@ impl Scope {
                             //         read_number_of_ext_fields
                             //     )));
                         }
-                        let range = bits.pos()..bits.pos() + *number_of_ext_fields;
+                        // only as many presence bits as were transmitted: additions the writer did not
+                        // know yet are absent
+                        let range = bits.pos()
+                            ..bits.pos() + (*number_of_ext_fields).min(read_number_of_ext_fields);
                         bits.set_pos(range.start + read_number_of_ext_fields); // skip bit-field
                         *self = Scope::AllBitField(range);
                     } else {
